@@ -9,13 +9,14 @@
   * `isNet fmt` is the decoder's `NetworkFormat` flag; `docName fmt name` is the name `Decode` returns
     (the root name in file format, "" in network format).
   * `S15 t`: every string and key of `t` is shorter than 2^15 bytes, the longest this package reads
-    (known finding C01.string-over-32767: the format allows 2^16 − 1).
+    (the property quantifies over 0..32767-byte strings; the format itself allows 2^16 − 1).
   * The entry points run with `fuel = input length + 3` (`fuelFor`), which the theorems show to be enough.
 -/
 import GoMC.Lemmas.NBTDecode
+import GoMC.Lemmas.NBTRoundTrip
 import GoMC.Gen.NBT
 namespace GoMC.Props.C01
-open GoMC GoMC.Rd GoMC.Model.NBT GoMC.Lemmas.NBTDecode
+open GoMC GoMC.Rd GoMC.Model GoMC.Model.NBT GoMC.Model.Go GoMC.Lemmas.NBTDecode GoMC.Lemmas.NBTTyped
 open GoMC.Spec (NBT encPayload encKvs encDoc Format docName parseDoc parsePayload)
 
 /-- T1 bridge: the thirteen tag ids of nbt/nbt.go (regenerated on every run) are the ids of the format; the
@@ -115,17 +116,38 @@ theorem C01_no_overread (fmt : Format) (name : Bytes) (t : NBT) (rest : Bytes) (
   omega
 
 
-/- OPEN: C01_encode_conforms (tree level).
-   `Encode v name = ok bs → ∃ t t', docTree v = some t ∧ t'.WF ∧ bs = encDoc fmt name t' ∧ t' ≃ t` (≃: equal up to
-   the order of compound entries), and `docTree v = none → Encode v name = err` (never `panic`), for the value
-   universe of `GoMC.Model.NBTEncode` (all scalar kinds, typed slices, `[]any`, `map[string]any`, `RawMessage`
-   at root / list / map / struct-field positions, `struct{}`).
-   Status: the encoder is modelled (`Model/NBTEncode.lean`, executable, tied to the real code by T2) and the
-   statement is CHECKED per case by the driver — the emitted bytes are parsed by the spec reader `parseDoc`
-   (proved above to be the inverse of the grammar) and the tree is compared with the documented tree computed
-   independently (`Driver.C01.docTree`) — but it is not proved: the model is written with `partial def` over
-   the nested value type and has to be restated structurally (as `Spec.encPayload` is) before the induction
-   can be done. No theorem of this file depends on the encoder model. -/
+/-! ### the typed codec against the format
+
+`Plain τ ok val need` (Lemmas/NBTRoundTrip): the plain fragment of the type universe of `Model/GoVal` — fixed-size
+scalars, strings, typed arrays, `RawMessage`, `dynbt.Value`, slices, string-keyed maps and structs with a flat
+field table of these to any depth —
+with, for each type, the trees `ok` it holds and the Go value `val t` of a tree. -/
+
+/-- The encoder conforms to the format: `Encode(val t, name)`, on the structural model of nbt/encode.go, is
+`encDoc fmt name t` — the grammar of the format applied to the tree the value stands for — in both formats. -/
+theorem C01_encode_conforms_partial (cx : SnbtCarrier) {τ : GoType} {ok : NBT → Prop} {val : NBT → GoVal} {need : NBT → Nat}
+    (hτ : Plain τ ok val need) (fmt : Format) (name : Bytes) (t : NBT) (hname : name.length < 32768) (ht : ok t) :
+    encode cx (isNet fmt) name (some (val t)) = Res.ok (encDoc fmt name t) :=
+  (plain_roundtrip cx hτ false fmt name t hname ht).1
+
+/-- The typed decoder conforms to the format and does not over-read: on a document of the format followed by any
+bytes, `Decode(&v)` with a fresh `v` of type `τ` returns the value of the tree and the root name, has consumed
+exactly the document, and leaves the rest in the source. -/
+theorem C01_decode_typed_partial (cx : SnbtCarrier) {τ : GoType} {ok : NBT → Prop} {val : NBT → GoVal} {need : NBT → Nat}
+    (hτ : Plain τ ok val need) (disallow : Bool) (fmt : Format) (name : Bytes) (t : NBT) (rest : Bytes) (s : Stream)
+    (hname : name.length < 32768) (ht : ok t) (hs : s.flat = encDoc fmt name t ++ rest) :
+    ∃ s', decodeTyped cx (isNet fmt) disallow τ s = (Res.ok (val t, docName fmt name), s') ∧ s'.flat = rest ∧
+      s'.failing = s.failing :=
+  (plain_roundtrip cx hτ disallow fmt name t hname ht).2 s rest hs
+
+/- OPEN: C01_encode_conforms / C01_decode_typed outside the plain fragment (struct types with embedding /
+   `omitempty` / `,list`, pointers, interfaces,
+   `[N]T` arrays, `[]any`, `map[string]any`): the models are structural (`Model/NBTEncode`, `Model/NBTTyped`, both
+   total functions over `Model/GoVal`) and tied to the code by T2, where the emitted bytes are parsed by the spec
+   reader `parseDoc` (proved above to be the inverse of the grammar) and compared with the documented tree
+   computed independently (`Driver.C01.docTree`, which covers structs through the model `typeFields`); the
+   induction is done for the plain fragment only. What is proved for the whole universe: `Encode` never panics
+   (`C02_encode_no_panic`), `Decode` never panics and terminates (`C03_total_typed`). -/
 
 /-! non-vacuity: a nested well-formed tree with short strings exists, and the theorem applies to it -/
 
